@@ -8,7 +8,15 @@ import time
 
 import execnet
 
+def _sleeping_function(channel, n=3, opt=None, items=()):
+    import time
+
+    time.sleep(1000)
+
+
 BODIES = {
+    # remote_exec of a function with keyword arguments of several types (sleeping: ended by the SIGINT rung)
+    "func_kwargs": ("function", _sleeping_function, {"n": 3, "opt": None, "items": [1, 2.5, "x"]}),
     "idle": None,
     "receive": "channel.receive()",
     "busy": "while True: pass",
@@ -55,7 +63,9 @@ def main():
         gw = group.makegateway(spec + f"//id=g{i}")
         pid = gw.remote_exec("import os\nchannel.send(os.getpid())").receive(30)
         body = BODIES[sc["env"]]
-        if body is not None:
+        if isinstance(body, tuple):
+            keep.append(gw.remote_exec(body[1], **body[2]))
+        elif body is not None:
             keep.append(gw.remote_exec(body))
             extra = {"sleep_and_sending": "while True: channel.send(b'x' * 1000000)",
                      "sleep_and_short": "import time\ntime.sleep(2.5)"}.get(sc["env"])
